@@ -427,6 +427,14 @@ def n6_wild(text, cnt):
     return t2
 
 
+def n13_size_of(text, cnt):
+    """`mem::size_of::<uN>()` -> the literal (Verus has no exec model of size_of; definitional for the fixed-width integers)."""
+    def rep(m):
+        cnt['N13'] = cnt.get('N13', 0) + 1
+        return {'u8': '1usize', 'i8': '1usize', 'u16': '2usize', 'i16': '2usize', 'u32': '4usize', 'i32': '4usize', 'u64': '8usize', 'i64': '8usize'}[m.group(2)]
+    return re.sub(r'\b(core::mem::|std::mem::|mem::)?size_of::<(u8|i8|u16|i16|u32|i32|u64|i64)>\(\)', rep, text)
+
+
 def n7_paths(text, cnt):
     t2, k = re.subn(r'\b(member|config|crate)::(?=[A-Za-z])', '', text)
     if k:
@@ -441,6 +449,7 @@ def normalise(text, cnt, vis=True):
     text = n5_errbox(text, cnt)
     text = n6_wild(text, cnt)
     text = n7_paths(text, cnt)
+    text = n13_size_of(text, cnt)
     if vis:
         text = n1_vis(text, cnt)
     return text
